@@ -114,4 +114,4 @@ def run(report, findings):
                 "prop with column or constant trials and aliases) x 8 right-hand sides; non-trivial = response values, kind, levels and the "
                 "independence of the predictor matrices from the response all verified",
         "samples": [f"{FORMS[6]} ~ {RHS[1]}", f"{FORMS[10]} ~ {RHS[4]}", f"{FORMS[14]} ~ {RHS[7]}"]})
-    report.assumptions = []
+    report.assumptions = list(dict.fromkeys(list(report.assumptions) + []))
